@@ -4,6 +4,8 @@
  *   -DABORT_CHECKS_FIT : assert that it is reached only when the request does not fit (g_fits pinned by the
  *                        unit's requires) and carry a reachability canary (units where every abort site is live)
  *   -DABORT_UNREACHABLE: assert that it is never reached
+ *   -DABORT_ONLY_IF_FLAG: assert that it is reached only after the harness set g_abort_ok (e.g. the expander-table request
+ *                        of p?gstrf_MemInit failed); with -DABORT_CANARY also a reachability canary
  * pthread_mutex_lock/unlock/init: no-ops that log the lock object (TRUSTED: the lock gives atomicity); the counters
  * saturate so that callers' contracts need not bound them. */
 #include <pthread.h>
@@ -12,6 +14,9 @@ int g_locks, g_unlocks, g_lock_inits; void *g_lock_obj, *g_unlock_obj;
 #ifdef ABORT_CHECKS_FIT
 extern int g_fits;
 #endif
+#ifdef ABORT_ONLY_IF_FLAG
+extern int g_abort_ok;
+#endif
 void verif_abort(char *msg) {
 #ifdef ABORT_CHECKS_FIT
   __CPROVER_assert(!g_fits, "abort path only when the request does not fit");
@@ -19,6 +24,12 @@ void verif_abort(char *msg) {
 #endif
 #ifdef ABORT_UNREACHABLE
   __CPROVER_assert(0, "abort hook is never reached");
+#endif
+#ifdef ABORT_ONLY_IF_FLAG
+  __CPROVER_assert(g_abort_ok, "abort path only after the request that has no other failure report failed");
+#ifdef ABORT_CANARY
+  __CPROVER_assert(0, "canary: abort path reachable");
+#endif
 #endif
   __CPROVER_assume(0);
 }
